@@ -266,6 +266,8 @@ func c05Run(x *core.Ctx) {
 			mt = mutateKeywordString(r, toks)
 		case 2:
 			mt = mutateVarInConst(r, toks)
+		case 3:
+			mt = mutateBrokenLexeme(r, toks)
 		default:
 			mt = mutateTokens(r, toks)
 		}
@@ -305,6 +307,35 @@ func mutateKeywordString(r *core.Rand, toks []model.Tok) []model.Tok {
 		txt = `"""` + out[i].Text + `"""`
 	}
 	out[i] = model.Tok{Kind: model.TString, Text: txt, Val: out[i].Text}
+	return out
+}
+
+// brokenLexemes are texts the lexical grammar admits no token for although a lenient reader of numbers or escapes might:
+// a document with one of them in the place of a value is not derivable. (No unterminated block strings: they run on to the
+// next quotes of the document, and where those are a run of more than three the library's deliberate reading - finding
+// F-C03-03 - differs from the grammar's.)
+var brokenLexemes = []string{`"\u+041"`, `"\u-041"`, `"\u 041"`, `"\u0x41"`, `"\u_041"`, `"\u00g1"`, `"\u41"`, `"\x41"`, `"\a"`, `"\'"`, `"\u{41}"`, `"a\`, `"\u004"`,
+	`01`, `-01`, `00`, `1.`, `.5`, `1e`, `1e+`, `1e-+5`, `1e+-5`, `1E--1`, `1.e1`, `1..2`, `+1`, `0x10`, `1_000`, `-`, `1.0.0`, `0e`, `1e1.5`, `-.5`, `1e5e5`,
+	`"a\nb`, "\"a\tb\u0001\""}
+
+// mutateBrokenLexeme replaces one value token (or a name after ':') by a broken lexeme.
+func mutateBrokenLexeme(r *core.Rand, toks []model.Tok) []model.Tok {
+	var idx []int
+	for i, t := range toks {
+		switch t.Kind {
+		case model.TString, model.TBlock, model.TInt, model.TFloat:
+			idx = append(idx, i)
+		case model.TName:
+			if i > 0 && toks[i-1].Kind == model.TPunct && toks[i-1].Text == ":" {
+				idx = append(idx, i)
+			}
+		}
+	}
+	if len(idx) == 0 {
+		return mutateTokens(r, toks)
+	}
+	out := append([]model.Tok{}, toks...)
+	out[idx[r.Intn(len(idx))]] = model.Tok{Kind: model.TString, Text: brokenLexemes[r.Intn(len(brokenLexemes))]}
 	return out
 }
 
